@@ -108,9 +108,9 @@ def e2(profile, quick_per_bin, thorough_per_bin):
             "timeout_s": {"quick": 1200, "thorough": 7200}}
 
 
-PLAN["C07"] = e2("C07", 10000, 200000)
-PLAN["C08"] = e2("C08", 10000, 200000)
-PLAN["C12"] = e2("C12", 10000, 200000)
+PLAN["C07"] = e2("C07", 10000, 100000)
+PLAN["C08"] = e2("C08", 10000, 100000)
+PLAN["C12"] = e2("C12", 10000, 100000)
 PLAN["C09"] = {
     "quick": [{"binary": "parsim", "package": "parsim", "profile": "C09", "runs": 160000, "chunks_per_job": 2}]
              + [{"binary": b, "package": b, "profile": "C09", "runs": 2500, "chunks_per_job": 1} for b in SCHED_BINS],
